@@ -395,7 +395,113 @@ pub fn judge_variant(img: &[u8], base: &Baseline, r: &mut Rng, must_detect: bool
     out
 }
 
+/// One file of more than 2^16 pages: whatever a reader keeps per page (verified marks, caches, tables) must
+/// not alias pages whose numbers agree modulo some table size. A bit is flipped in pages around powers of two
+/// and in random pages; whole-file validation and reading the blob that covers the page must both fail.
+fn large_file_stage(a: &Args, rep: &mut Reporter) {
+    let mut r = Rng::new(crate::rng::mix(&[a.seed, 0xB16F]));
+    let n: usize = 66 * 1024 * 1024 + 4096 + r.usize(5000);
+    let data: Vec<u8> = (0..n).map(|i| ((i as u64).wrapping_mul(0x9E37_79B9_7F4A_7C15) >> 56) as u8).collect();
+    let built = guarded(|| -> std::result::Result<(Vec<u8>, Blob), String> {
+        let mut cur = Cursor::new(Vec::new());
+        let blob;
+        {
+            let mut w = E57Writer::new(&mut cur, "{large}").map_err(|e| err_str(&e))?;
+            let mut src: &[u8] = &data;
+            blob = w.add_blob(&mut src).map_err(|e| err_str(&e))?;
+            w.finalize().map_err(|e| err_str(&e))?;
+        }
+        Ok((cur.into_inner(), blob))
+    });
+    let (mut img, blob) = match built {
+        Ok(Ok(x)) => x,
+        other => {
+            rep.violation("C07", "large-file/write-failed", 0, &format!("writing one blob of {} bytes failed: {:?}", n, other.map(|r| r.map(|_| ()))));
+            return;
+        }
+    };
+    let npages = img.len() / PAGE;
+    rep.stat("large_file_pages", npages as u64);
+    match guarded(|| E57Reader::validate_crc(Cursor::new(&img[..]))) {
+        Ok(Ok(1024)) => {}
+        other => {
+            rep.violation("C07", "validate_crc/intact-rejected/large-file", 0, &format!("validate_crc on an intact file of {} pages: {:?}", npages, other.map(|r| r.map_err(|e| err_str(&e)))));
+            return;
+        }
+    }
+    let mut pages: Vec<(usize, &'static str)> = Vec::new();
+    for k in [8usize, 10, 12, 14, 15, 16] {
+        let p = 1usize << k;
+        for (q, c) in [(p - 1, "2^k-1"), (p, "2^k"), (p + 1, "2^k+1")] {
+            if q < npages {
+                pages.push((q, c));
+            }
+        }
+    }
+    pages.push((npages - 2, "near-end"));
+    let extra = if a.thorough() { 40 } else { 4 };
+    for _ in 0..extra {
+        pages.push((1 + r.usize(npages - 1), "random"));
+    }
+    if !a.thorough() {
+        // quick tier: the powers of two themselves, two neighbours, and the random ones
+        pages.retain(|(q, c)| *c == "2^k" || *c == "random" || *c == "near-end" || *q == (1 << 14) + 1 || *q == (1 << 16) - 1);
+    }
+    for (pg, class) in pages {
+        let at = pg * PAGE + r.usize(PAGE);
+        let bit = 1u8 << r.usize(8);
+        img[at] ^= bit;
+        rep.stat("variants", 1);
+        rep.stat("large_file_variants", 1);
+        rep.cover.hit(&format!("variant:large-file:{}", class));
+        match guarded(|| E57Reader::validate_crc(Cursor::new(&img[..]))) {
+            Err(p) => rep.violation("C07", &format!("panic/validate_crc/{}", panic_sig(&p)), 0, &p),
+            Ok(Ok(_)) => rep.violation("C07", &format!("validate_crc/accepted/large-file/{}", class), 0, &format!("file of {} pages: a flipped bit in page {} (byte {} of the page) is not detected by validate_crc", npages, pg, at % PAGE)),
+            Ok(Err(_)) => {}
+        }
+        // reading: open (reads the header page and the XML pages first), then the blob that covers the page
+        let res = guarded(|| -> std::result::Result<u64, String> {
+            let mut rd = E57Reader::new(Cursor::new(&img[..])).map_err(|e| err_str(&e))?;
+            let mut sink = Fnv { h: 0xcbf29ce484222325, n: 0 };
+            rd.blob(&blob, &mut sink).map_err(|e| err_str(&e))?;
+            Ok(sink.h)
+        });
+        match res {
+            Err(p) => rep.violation("C07", &format!("panic/blob/{}", panic_sig(&p)), 0, &p),
+            Ok(Ok(h)) => {
+                let in_blob = (at as u64) >= blob.offset && pg < npages - 2;
+                if in_blob || h != fnv64(&data) {
+                    rep.violation("C07", &format!("read/accepted-data/large-file/{}", class), 0, &format!("file of {} pages: with a flipped bit in page {} the blob covering it was returned without error (content {})", npages, pg, if h == fnv64(&data) { "unchanged" } else { "ALTERED" }));
+                }
+            }
+            Ok(Err(_)) => {}
+        }
+        img[at] ^= bit;
+    }
+}
+
+struct Fnv {
+    h: u64,
+    n: u64,
+}
+impl std::io::Write for Fnv {
+    fn write(&mut self, b: &[u8]) -> std::io::Result<usize> {
+        for &x in b {
+            self.h ^= x as u64;
+            self.h = self.h.wrapping_mul(0x100000001b3);
+        }
+        self.n += b.len() as u64;
+        Ok(b.len())
+    }
+    fn flush(&mut self) -> std::io::Result<()> {
+        Ok(())
+    }
+}
+
 pub fn run(a: &Args, rep: &mut Reporter) {
+    if a.shard == 0 && a.only.is_none() && a.get_u64("start", 0) == 0 && !a.flag("no-large") {
+        large_file_stage(a, rep);
+    }
     let fc = FastCrc::new();
     let multi = a.get_u64("multi", 1500);
     let mut digest_files: u64 = 0;
